@@ -6,6 +6,7 @@
 package mailbox
 
 import (
+	"bytes"
 	"encoding/json"
 	"math"
 	"fmt"
@@ -178,4 +179,19 @@ func vParam(name string, def int) int {
 		return int(v)
 	}
 	return def
+}
+
+func vIdealEq(a, b []byte) bool { return bytes.Equal(a, b) }
+
+// vMentions natively: does b contain a run of >= 8 bytes of secret?
+func vMentions(b, secret []byte) bool {
+	if len(secret) < 8 {
+		return false
+	}
+	for i := 0; i+8 <= len(secret); i++ {
+		if bytes.Contains(b, secret[i:i+8]) {
+			return true
+		}
+	}
+	return false
 }
